@@ -116,3 +116,15 @@ Proof. exact TextProofs.parse_source. Qed.
 Theorem C13_parse_source_example :
   parse_script PrinterProofs.Demo.pf0 max_depth (TextProofs.source PrinterProofs.Demo.demo) = ParseOk PrinterProofs.Demo.demo.
 Proof. exact TextProofs.demo_parse_source. Qed.
+
+(* the parser keeps whatever is written after a `.` (it used to replace it by a string literal holding its
+   printed form, so a valueless construct written there vanished from the tree - D39): the compound
+   assignment is still in the tree, the tree is not well-moded, and Prepare refuses scripts that are not
+   well-moded (Model/Api.v `prepare`) *)
+Theorem C13_dot_operand_kept :
+  let tree := [SExpr (EAssign (L "x")
+                 (EInfix TPeriod (EIdent (L "a"))
+                    (EInfix TPlusEq (EInt (L "1") 1) (EInt (L "2") 2))))] in
+  parse_script (fun _ => None) max_depth (L "x = a.(1 += 2);") = ParseOk tree /\
+  Spec.Moded.well_moded tree = false.
+Proof. exact ParserProofs.dot_operand_kept. Qed.
